@@ -451,7 +451,7 @@ func TestC21(t *testing.T) {
 	zc.Level = zap.NewAtomicLevelAt(zap.ErrorLevel)
 	log.ConfigureLogger(zc)
 
-	nMemb := run.N(12, 48)
+	nMemb := run.N(12, 24)
 	for mi := 0; mi < nMemb; mi++ {
 		r := run.Rand(fmt.Sprintf("membership-%d", mi))
 		size := 1 + mi%12
@@ -462,7 +462,9 @@ func TestC21(t *testing.T) {
 			// seeds pair sizes and replica counts differently
 			mrs = []int{1 + (mi+int(run.Seed()))%5}
 		} else {
-			mrs = []int{1, 2, 3, 4, 5}
+			// three of the five replica counts per membership, rotated
+			k := mi + int(run.Seed())
+			mrs = []int{1 + k%5, 1 + (k+2)%5, 1 + (k+3)%5}
 		}
 		suffix := gen.Hex(r, 60)
 		digests := make([]core.Digest, numShards)
